@@ -63,6 +63,12 @@ func TestVerifHs13Dbg(t *testing.T) {
 		}
 		defer func() { c02ConfigHook = nil }()
 	}
+	for _, f := range strings.Split(os.Getenv("VERIF_DBG_INJECT"), ",") {
+		var in hs13Inject
+		if n, _ := fmt.Sscanf(strings.ReplaceAll(f, ":", " "), "%d %s %d %d %d %d %d %d", &in.AtMs, &in.To, &in.HT, &in.MS, &in.FO, &in.FL, &in.TL, &in.Seq); n == 8 {
+			opt.Inject = append(opt.Inject, in)
+		}
+	}
 	v, ok := hs13Variant(parts[0])
 	if !ok {
 		t.Fatalf("unknown variant %q", parts[0])
@@ -390,6 +396,31 @@ func TestVerifHs13Cookie(t *testing.T) {
 		// the HelloRetryRequest passes, everything later towards the server is lost for a while
 		jobs = append(jobs, hs13Job{v, nil, hs13Opt{SilenceFrom: 3, SilenceUntil: 7500 * time.Millisecond, SilenceTo: "server", Limit: 300 * time.Second}})
 	}
+	// forged stale fragments that are NOT a ClientHello, handed to the server after its HelloRetryRequest went out
+	// (message_seq 0 is below the reassembly sequence then): 1 or 3 of them more than InitialRetransmitInterval/2
+	// apart, and 3 spaced closer than that (inside the rate limit of the reply-only flight); with the client cut
+	// off, and with only the first HelloRetryRequest lost
+	stale := func(at int64, seq uint64, ht int) hs13Inject {
+		return hs13Inject{AtMs: at, To: "server", HT: ht, MS: 0, FO: 0, FL: 1, TL: 32, Seq: seq}
+	}
+	for vi, name := range []string{"v13", "v13-hrr", "v13-clientauth", "v13-mtu300"} {
+		v, _ := hs13Variant(name)
+		if vi >= 2 && !vIsThorough() {
+			continue
+		}
+		for _, ht := range []int{20, 16} {
+			sets := [][]hs13Inject{
+				{stale(600, 101, ht)},
+				{stale(600, 101, ht), stale(1600, 102, ht), stale(2200, 103, ht)},
+				{stale(100, 101, ht), stale(200, 102, ht), stale(300, 103, ht)},
+			}
+			for _, in := range sets {
+				jobs = append(jobs, hs13Job{v, nil, hs13Opt{SilenceUntil: 2500 * time.Millisecond, SilenceTo: "client", Inject: in, Limit: 300 * time.Second}})
+				lost := hs13Single(len(hs13FirstFlight(t, v)), "drop") // the datagram after ClientHello1 is the HelloRetryRequest
+				jobs = append(jobs, hs13Job{v, lost, hs13Opt{Inject: in, Limit: 300 * time.Second}})
+			}
+		}
+	}
 	nr := 30
 	if vIsThorough() {
 		nr = 1500
@@ -408,4 +439,19 @@ func TestVerifHs13Cookie(t *testing.T) {
 		jobs = append(jobs, hs13Job{v, m, opt})
 	}
 	hs13RunJobs(t, jobs, "hs13-cookie")
+}
+
+// hs13FirstFlight: the datagrams of the client's first flight in a fault-free run of v.
+func hs13FirstFlight(t *testing.T, v c02Variant) []int {
+	var res hs13Case
+	vBubble(t, func(t *testing.T) { res = runHs13(t, v, nil, hs13Opt{Limit: 50 * time.Second}) })
+	var out []int
+	for _, e := range res.Events {
+		if e.Ev != "emit" || e.Side != "client" {
+			break
+		}
+		out = append(out, e.Idx)
+	}
+
+	return out
 }
